@@ -6,7 +6,8 @@ Case forms (all JSON-able):
   {'op':'unique','ft':FT,'level':LV,'col':[...],'flags':[ri,rv,rc]}
   {'op':'isin','ft':FT,'level':LV,'col':[...],'tests':[...]|None,'tkind':'list'|'set'|'array','via':'method'|'module'}
   FT = 'istr' (col = list of code-point lists) | 'fstr' (col = list of byte lists, 'strlen') |
-       'int32' | 'int8' | 'bool' | 'float32' | 'cat' | 'ts'   (col = ints; float/ts values are quarter units)
+       'int32' | 'int8' | 'bool' | 'float32' | 'cat' | 'ts' | 'int64' | 'float64' | 'uint16'
+       (col = ints; float/ts values are quarter units); 'tkind' may also be 'tuple'
   LV = 'ops' (istr only: the operations.py functions on (indices, values)) | 'mem' (…MemField) | 'h5' (HDF5 field)
   istr/ops cases may carry 'raw': {'indices':[…],'values':[…]} instead of 'col' (malformed stream) and
   'idx0': 1 (an empty column stored as indices=[0] instead of []).
@@ -56,7 +57,9 @@ TRUSTED = ['numpy sort/argsort of str arrays (code-point order, trailing NULs in
            'for non-indexed field types the model of the numpy dispatch IS the specification; the theorem for them is '
            'definitional and the evidence is the differential run']
 ASSUMPTIONS = ['strings contain no NUL code point at their end (numpy U/S dtypes drop trailing NULs: finding F-C14b)',
-               'no NaN in float/timestamp columns', 'test-set entries have the field\'s value type or are None']
+               'no NaN in float/timestamp columns',
+               'test-set entries are None or values of the field\'s kind (integers for integer / bool / categorical fields, '
+               'also just outside the column dtype; quarter-unit floats; bytes; str); containers list, set, ndarray, tuple']
 TECHNIQUE = ('Coq proof (faithful model of the indexed-string kernels and their Python drivers = sort/unique/membership '
              'specification over UTF-8 bytes) + exhaustive small-scope differential correspondence against /repo')
 LEVEL_TEXT = ('Theorems in coq/Props/C14.v prove for all columns, flag combinations and test sets that the Gallina model '
@@ -495,6 +498,7 @@ def _padding(ft, m, wide, rng=None):
     """m distinct values of the field type that are in neither _plain_pool(ft) list"""
     if ft == 'bool':
         return []
+    m = min(m, 1800)        # every value below stays inside its dtype (and exact in float32)
     if ft in ('int8', 'cat'):
         return [10 + i for i in range(min(m, 100))]
     if ft == 'fstr':
@@ -505,7 +509,8 @@ def _padding(ft, m, wide, rng=None):
         return [1000 + (37 if wide else 1) * i for i in range(m)]
     if ft == 'int64':
         return [2 ** 53 + 2 + i for i in range(m)] if not wide else [2 ** 40 + 12345678901 * i for i in range(m)]
-    return [100 + i for i in range(m)] if not wide else [100000 + 7919 * 1000 * i for i in range(m)]
+    step = min(7919 * 1000, (2 ** 31 - 1 - 100000) // max(m, 1))
+    return [100 + i for i in range(m)] if not wide else [100000 + step * i for i in range(m)]
 
 
 def _aliases(ft):
